@@ -9,8 +9,8 @@ import (
 	"fmt"
 	"go/token"
 	"go/types"
-	"sort"
 	"path/filepath"
+	"sort"
 	"strings"
 
 	"golang.org/x/tools/go/ssa"
